@@ -11,6 +11,35 @@ import KDVerif.Lemmas.MixWrapper
 namespace KDVerif.C11
 open KDVerif.MixWrapper
 
+/-! ### non-vacuity witness shared by the theorems below
+A seeded call on samples of different shape (partner is padded in dim 0 and cut in dim 1). -/
+
+def exCfg : Cfg := ⟨1, 0, 1, some (4/5), none, some .padOrCutEnd⟩
+def exTen (s a b : Nat) : Ten := ⟨2, fun d => if d = 0 then a else b, fun ι => ((s * 100 + ι 0 * 10 + ι 1 : Nat) : Rat)⟩
+def exDS : DS := ⟨2, fun k => if k = 0 then exTen 1 3 2 else exTen 2 2 4, fun k => k, 2⟩
+def exTape : Tape := [.unif (1/4), .int 2 1, .beta (4/5) (1/4)]
+
+/-- label `[1/4, 3/4]`, shape `(3, 2)`; inside the partner `1/4·111 + 3/4·211 = 186`, in the padded row
+    `1/4·121 + 3/4·0` -/
+theorem ex_values : (match getitemXClass exCfg exTape exDS 0 with
+    | .ok (x, l) => l == [1/4, 3/4] && x.shape 0 == 3 && x.shape 1 == 2 &&
+        x.el (fun d => if d = 0 then 1 else 1) == 186 && x.el (fun d => if d = 0 then 2 else 1) == 121/4
+    | .error _ => false) = true := by decide +kernel
+
+theorem ex_ok : ∃ x' l', getitemXClass exCfg exTape exDS 0 = .ok (x', l') := by
+  have h := ex_values
+  cases hc : getitemXClass exCfg exTape exDS 0 with
+  | ok r => exact ⟨r.1, r.2, rfl⟩
+  | error e => rw [hc] at h; cases h
+
+theorem ex_tapeOk : TapeOk exTape := by
+  intro d hd
+  simp only [exTape, List.mem_cons, List.not_mem_nil, or_false] at hd
+  rcases hd with h | h | h <;> subst h <;> simp only [Draw.Ok]
+  · constructor <;> grind
+  · omega
+  · constructor <;> grind
+
 /-- **The per-dimension loop is the closed form and yields exactly `x`'s shape.** For tensors of equal rank
     the sequential pad/cut loop of the code returns a tensor with `x`'s rank and extents whose element at any
     index inside `x`'s extents is `x2`'s element there if the index also lies inside `x2`, and `0` otherwise
@@ -124,6 +153,11 @@ theorem mix_is_convex {cfg tape ds i x' l'} (h : getitemXClass cfg tape ds i = .
       · cases h
   · cases h
 
+
+example : ∃ x' l', Outcome exCfg exTape exDS 0 x' l' := by
+  obtain ⟨x', l', h⟩ := ex_ok
+  exact ⟨x', l', mix_is_convex h⟩
+
 /-- pointwise reading of the mixed case: every element is the convex combination, and where shapes were
     unified (`pad_or_cut_end`, equal ranks) the partner contributes its own element inside its extents and `0`
     outside -/
@@ -166,6 +200,12 @@ theorem label_simplex {cfg tape ds i x' l'} (h : getitemXClass cfg tape ds i = .
     · rw [mixRow_sum lam c1 c2 (by rw [hlen1, hlen2]), hsum1, hsum2]
       grind
 
+
+example : ∃ x' l', getitemXClass exCfg exTape exDS 0 = .ok (x', l') ∧ l'.length = 2 ∧ l'.sum = 1 := by
+  obtain ⟨x', l', h⟩ := ex_ok
+  have := label_simplex h ex_tapeOk
+  exact ⟨x', l', h, this.1, this.2.2⟩
+
 /-- **A probability-one configuration mixes every sample**: with `total_p = 1` the first draw (in `[0,1)`)
     never exceeds `total_p`, so every successful call is of the mixed form. -/
 theorem p_one_always_mixes {cfg tape ds i x' l'} (h : getitemXClass cfg tape ds i = .ok (x', l'))
@@ -182,6 +222,13 @@ theorem p_one_always_mixes {cfg tape ds i x' l'} (h : getitemXClass cfg tape ds 
     have hj : j < ds.len := hok (.int ds.len j) (by rw [htape]; simp)
     exact ⟨a, j, alpha, lam, x2', htape, hj, hunify, hx⟩
 
+
+example : ∃ x' l', getitemXClass exCfg exTape exDS 0 = .ok (x', l') ∧
+    ∃ a j alpha lam, exTape = [.unif a, .int exDS.len j, .beta alpha lam] ∧ j < exDS.len := by
+  obtain ⟨x', l', h⟩ := ex_ok
+  obtain ⟨a, j, alpha, lam, _, h1, h2, _⟩ := p_one_always_mixes h ex_tapeOk rfl
+  exact ⟨x', l', h, a, j, alpha, lam, h1, h2⟩
+
 /-- **With a seed the image-only, label-only and joint requests describe the same draw.** When every
     `getitem_xclass` call of a request sees the same tape (generator seeded with `seed + idx`), the four
     request layouts return exactly the components of that one call. -/
@@ -193,31 +240,29 @@ theorem seeded_requests_agree {cfg : Cfg} {tapes : Nat → Tape} {t : Tape} {ds 
     modeGet cfg tapes ds i .cls = .ok (none, some l') := by
   simp [modeGet, hseed, h]
 
+
+example : ∃ x' l', modeGet exCfg (fun _ => exTape) exDS 0 .classx = .ok (some x', some l') := by
+  obtain ⟨x', l', h⟩ := ex_ok
+  exact ⟨x', l', (seeded_requests_agree (fun _ => rfl) h).2.1⟩
+
 /-- and a failing call fails for every layout in the same way -/
 theorem seeded_requests_agree_error {cfg : Cfg} {tapes : Nat → Tape} {t : Tape} {ds : DS} {i : Nat} {e : Err}
     (hseed : ∀ k, tapes k = t) (h : getitemXClass cfg t ds i = .error e) (r : Req) :
     modeGet cfg tapes ds i r = .error e := by
   cases r <;> simp [modeGet, hseed, h]
 
-/-! ### non-vacuity: a concrete seeded call on samples of different shape (pad in dim 0, cut in dim 1) -/
 
-def exCfg : Cfg := ⟨1, 0, 1, some (4/5), none, some .padOrCutEnd⟩
-def exTen (s a b : Nat) : Ten := ⟨2, fun d => if d = 0 then a else b, fun ι => ((s * 100 + ι 0 * 10 + ι 1 : Nat) : Rat)⟩
-def exDS : DS := ⟨2, fun k => if k = 0 then exTen 1 3 2 else exTen 2 2 4, fun k => k, 2⟩
-def exTape : Tape := [.unif (1/4), .int 2 1, .beta (4/5) (1/4)]
-
-example : (match getitemXClass exCfg exTape exDS 0 with
-    | .ok (x, l) => l == [1/4, 3/4] && x.shape 0 == 3 && x.shape 1 == 2 &&
-        -- inside the partner: 1/4*111 + 3/4*211 ; padded row: 1/4*121 + 3/4*0
-        x.el (fun d => if d = 0 then 1 else 1) == 186 && x.el (fun d => if d = 0 then 2 else 1) == 121/4
-    | .error _ => false) = true := by decide +kernel
-
-example : TapeOk exTape := by
-  intro d hd
-  simp only [exTape, List.mem_cons, List.not_mem_nil, or_false] at hd
-  rcases hd with h | h | h <;> subst h <;> simp only [Draw.Ok]
-  · constructor <;> grind
-  · omega
-  · constructor <;> grind
+/-- a cutmix draw (`apply < cutmix_p`) is a `NotImplementedError` for every layout -/
+example : modeGet ⟨1/2, 1/2, 1, some 1, some 1, none⟩ (fun _ => [.unif (1/4), .int 2 1, .beta 1 (1/2)]) exDS 0 .cls =
+    .error .notImplemented := by
+  apply seeded_requests_agree_error (fun _ => rfl)
+  have h : (match getitemXClass ⟨1/2, 1/2, 1, some 1, some 1, none⟩ [.unif (1/4), .int 2 1, .beta 1 (1/2)] exDS 0 with
+      | .error e => e == .notImplemented | .ok _ => false) = true := by decide +kernel
+  cases hc : getitemXClass ⟨1/2, 1/2, 1, some 1, some 1, none⟩ [.unif (1/4), .int 2 1, .beta 1 (1/2)] exDS 0 with
+  | ok r => rw [hc] at h; cases h
+  | error e =>
+    rw [hc] at h
+    simp only [beq_iff_eq] at h
+    rw [h]
 
 end KDVerif.C11
